@@ -77,8 +77,97 @@ func (o *out) effects(dir, fn, lean string) {
 	fmt.Fprintf(o, "def %s_hooks : List String := %s\n", lean, q(hooks))
 }
 
+// removals emits the RemoveAll calls of a function with the conditions of the enclosing
+// if statements ("RemoveAll(<arg>) if <cond> && <cond>"), the defining statements of a few
+// local names, and the string literal appended to filepath.Base(dir) in tmpPrefix.
+func (o *out) removals(dir, fn, lean string, names ...string) {
+	p := loadPkg(dir)
+	fd := p.findFunc(fn)
+	if fd == nil || fd.Body == nil {
+		fmt.Fprintf(o, "def %s_unavailable : Unit := ()  -- %s not found\n", lean, fn)
+		return
+	}
+	var rem []string
+	var walk func(n ast.Node, conds []string)
+	walk = func(n ast.Node, conds []string) {
+		switch x := n.(type) {
+		case nil:
+			return
+		case *ast.IfStmt:
+			walk(x.Init, conds)
+			c := append(append([]string{}, conds...), p.src(x.Cond))
+			walk(x.Cond, conds)
+			walk(x.Body, c)
+			if x.Else != nil {
+				walk(x.Else, append(append([]string{}, conds...), "!("+p.src(x.Cond)+")"))
+			}
+			return
+		case *ast.CallExpr:
+			if name := p.src(x.Fun); (name == "RemoveAll" || name == "os.RemoveAll" || name == "robustio.RemoveAll") && len(x.Args) == 1 {
+				s := "RemoveAll(" + p.src(x.Args[0]) + ")"
+				if len(conds) > 0 {
+					s += " if " + strings.Join(conds, " && ")
+				}
+				rem = append(rem, s)
+			}
+		}
+		// generic descent in source order
+		var kids []ast.Node
+		ast.Inspect(n, func(c ast.Node) bool {
+			if c == n {
+				return true
+			}
+			if c != nil {
+				kids = append(kids, c)
+			}
+			return false
+		})
+		for _, k := range kids {
+			walk(k, conds)
+		}
+	}
+	walk(fd.Body, nil)
+	want := map[string]bool{}
+	for _, n := range names {
+		want[n] = true
+	}
+	var defs []string
+	suffix := "?"
+	ast.Inspect(fd.Body, func(n ast.Node) bool {
+		as, ok := n.(*ast.AssignStmt)
+		if !ok || as.Tok != token.DEFINE {
+			return true
+		}
+		for _, l := range as.Lhs {
+			if id, ok := l.(*ast.Ident); ok && want[id.Name] {
+				defs = append(defs, p.src(as))
+				if id.Name == "tmpPrefix" && len(as.Rhs) == 1 {
+					if be, ok := as.Rhs[0].(*ast.BinaryExpr); ok && be.Op == token.ADD && p.src(be.X) == "filepath.Base(dir)" {
+						if lit, ok := be.Y.(*ast.BasicLit); ok && lit.Kind == token.STRING {
+							suffix, _ = strconv.Unquote(lit.Value)
+						}
+					}
+				}
+				break
+			}
+		}
+		return true
+	})
+	q := func(xs []string) string {
+		var ys []string
+		for _, x := range xs {
+			ys = append(ys, leanStr(x))
+		}
+		return "[" + strings.Join(ys, ", ") + "]"
+	}
+	fmt.Fprintf(o, "/-- RemoveAll calls of %s.%s with the conditions guarding them -/\ndef %s_removes : List String := %s\n", dir, fn, lean, q(rem))
+	fmt.Fprintf(o, "def %s_defs : List String := %s\n", lean, q(defs))
+	fmt.Fprintf(o, "/-- the literal appended to filepath.Base(dir) to form the sibling-cleanup prefix -/\ndef cleanup_tmp_suffix : String := %s\n", leanStr(suffix))
+}
+
 func init() {
 	gens["C16"] = func(o *out) {
+		o.removals("mod/modcache", "Cache.Fetch", "fx_Fetch", "parentDir", "tmpPrefix", "entries", "dirExists")
 		o.effects("mod/modcache", "Cache.Fetch", "fx_Fetch")
 		o.effects("mod/modcache", "Cache.FetchFromCache", "fx_FetchFromCache")
 		o.effects("mod/modcache", "Cache.downloadZip", "fx_downloadZip")
